@@ -548,6 +548,30 @@ func c01ConfigSpace(tier string) *core.Space {
 	}
 }
 
+// class hierarchies and alias shapes of C15 (cyclic, split over files): only liveness is judged here; a crash or
+// hang is attributed by the parent, the member oracle belongs to C15
+func c01ClassSpace(tier string) *core.Space {
+	inner := c15Space(tier)
+	return &core.Space{Name: "class-hierarchies-and-alias-cycles(liveness)", N: inner.N, Chunk: inner.Chunk, RecycleEvery: inner.RecycleEvery, PerCaseTimeoutS: 60,
+		Describe: inner.Describe,
+		Run: func(i int64, r *core.Result) {
+			var scratch core.Result
+			vrt.TakeRecovered()
+			inner.Run(i, &scratch)
+			r.Evaluated++
+			r.States++
+			r.Transitions += scratch.Transitions
+			for _, f := range scratch.Failures {
+				if strings.Contains(f.Sig, "request-error") || strings.Contains(f.Sig, "server-start-failed") {
+					r.Fail("classes", i, "no-answer:"+f.Sig, fmt.Sprint(inner.Describe(i)), map[string]interface{}{"case": inner.Describe(i)})
+				}
+			}
+			if bad := c01Swallowed(); len(bad) > 0 {
+				r.Fail("classes", i, "internal-fault-swallowed-by-recover", fmt.Sprint(inner.Describe(i)), map[string]interface{}{"recovered": bad, "case": inner.Describe(i)})
+			}
+		}}
+}
+
 func sortStrings(s []string) {
 	for i := 1; i < len(s); i++ {
 		for j := i; j > 0 && s[j] < s[j-1]; j-- {
@@ -567,9 +591,9 @@ func init() {
 		Flavour:     "inst-pass", QuickBudgetS: 300, ThoroughBudgetS: 1800,
 		Spaces: func(tier string) []*core.Space {
 			if tier == "thorough" {
-				return []*core.Space{c01ByteSpace(4), c01TokenSpace(3), c01PositionSpace(tier), c01HistorySpace(1), c01HistorySpace(2), c01HistorySpace(3), c01ConfigSpace(tier)}
+				return []*core.Space{c01ByteSpace(4), c01TokenSpace(3), c01PositionSpace(tier), c01HistorySpace(1), c01HistorySpace(2), c01HistorySpace(3), c01ConfigSpace(tier), c01ClassSpace(tier)}
 			}
-			return []*core.Space{c01ByteSpace(3), c01TokenSpace(2), c01PositionSpace(tier), c01HistorySpace(1), c01HistorySpace(2), c01ConfigSpace(tier)}
+			return []*core.Space{c01ByteSpace(3), c01TokenSpace(2), c01PositionSpace(tier), c01HistorySpace(1), c01HistorySpace(2), c01ConfigSpace(tier), c01ClassSpace(tier)}
 		},
 	})
 }
